@@ -799,6 +799,15 @@ func (y *vsSys) registrationProbes(s *vsState) *engine.Violation {
 		{"undecodable-key[ed25519 without a key]", func() error {
 			return k.RegisterExecutorChangePlan(1, h, valOf("o3"), "m", `{"@type":"/cosmos.crypto.ed25519.PubKey"}`, "i", e)
 		}},
+		{"undecodable-key[valid key followed by garbage]", func() error {
+			return k.RegisterExecutorChangePlan(1, h, valOf("o3"), "m", good+"}}]] garbage", "i", e)
+		}},
+		{"undecodable-key[valid key followed by one character]", func() error {
+			return k.RegisterExecutorChangePlan(1, h, valOf("o3"), "m", good+"x", "i", e)
+		}},
+		{"undecodable-key[two keys glued together]", func() error {
+			return k.RegisterExecutorChangePlan(1, h, valOf("o3"), "m", good+pubKeyJSON(s.w, "k2"), "i", e)
+		}},
 		{"key-not-json", func() error { return k.RegisterExecutorChangePlan(1, h, valOf("o3"), "m", "garbage", "i", e) }},
 		{"bad-operator", func() error { return k.RegisterExecutorChangePlan(1, h, "notanaddress", "m", good, "i", e) }},
 		{"operator-with-account-prefix", func() error { return k.RegisterExecutorChangePlan(1, h, world.Addr("o3").String(), "m", good, "i", e) }},
@@ -838,9 +847,24 @@ func (y *vsSys) registrationProbes(s *vsState) *engine.Violation {
 		if err == nil {
 			return tagged(viol("malformed-plan-is-rejected", "malformed plan (%s) was registered", p.name), "probe", p.name)
 		}
-		if !bytes.Equal(world.PlansBytes(k.ExecutorChangePlans), before) || s.w.Digest(s.ctx) != d0 {
+		if !bytes.Equal(world.PlansBytes(k.ExecutorChangePlans), before) {
 			return tagged(viol("malformed-plan-is-rejected", "rejected plan (%s) left side effects", p.name), "probe", p.name)
 		}
+	}
+	// the stores are digested once for the whole family (registration has no context to write through);
+	// only if something changed is the culprit looked for
+	if s.w.Digest(s.ctx) != d0 {
+		for _, p := range probes {
+			d1 := s.w.Digest(s.ctx)
+			func() {
+				defer func() { _ = recover() }()
+				_ = p.f()
+			}()
+			if s.w.Digest(s.ctx) != d1 {
+				return tagged(viol("malformed-plan-is-rejected", "rejected plan (%s) left side effects", p.name), "probe", p.name)
+			}
+		}
+		return tagged(viol("malformed-plan-is-rejected", "a rejected plan of the probe family left side effects in the stores"), "probe", "family")
 	}
 	return nil
 }
